@@ -229,6 +229,14 @@ def run_real(case):
             if old_handle is not None and old_handle is not streams.get(op[1]):
               old_handle.close(timeout_ms=600000)
             res.append('ok')
+          elif op[0] == 'RS':
+            # read() through that stale handle: buffered data, then "closed"; never the packets of the id's new owner
+            old_handle = firsts.get(op[1])
+            if old_handle is not None and old_handle is not streams.get(op[1]):
+              d = old_handle.read(op[2] if len(op) > 2 else 0, timeout_ms=600000)
+              res.append('d:' + '.'.join(str(ord(c) - 65) for c in d))
+            else:
+              res.append('err:closed')
           elif op[0] == 'X':
             if op[1] in streams:
               streams[op[1]].close(timeout_ms=600000)
@@ -328,7 +336,10 @@ def gen_cases(rng, tier):
                       'dev': [['K', 20, a], ['K', 30, b], ['Z', 30, b]] + extra + [['W', 20, a, 2]]})
   # id wrap-around: stream 2 is closed by the device while stream 1 reads; a later stream gets id 2; the stale handle of
   # the first stream 2 is then closed by its owner - the live stream 2 must not notice, its id must stay taken
-  for tail in ([['XS', 2]], [['XS', 2], ['O']], [['XS', 2], ['R', 2, 0]], [['XS', 2], ['XS', 2], ['O'], ['X', 2]]):
+  for tail in ([['XS', 2]], [['XS', 2], ['O']], [['XS', 2], ['R', 2, 0]], [['XS', 2], ['XS', 2], ['O'], ['X', 2]],
+               # ... or read through it (fixed 04cae982: it became the connection's reader and took the new stream's WRTE)
+               [['RS', 2]], [['RS', 2], ['R', 2, 0]], [['RS', 2], ['RS', 2], ['R', 2, 0], ['X', 2]], [['XS', 2], ['RS', 2], ['R', 2, 0]],
+               [['R', 2, 0], ['RS', 2], ['XS', 2]]):
     cases.append({'kind': 'S', 'limit': 4, 'last': 0,
                   'ops': [['O'], ['O'], ['O'], ['R', 1, 0], ['X', 3], ['O'], ['O']] + tail,
                   'dev': [['K', 101, 1], ['K', 102, 2], ['K', 103, 3], ['Z', 102, 2], ['W', 101, 1, 1], ['K', 104, 3], ['K', 105, 2],
